@@ -49,6 +49,37 @@ func findLookup(p *Prog) (*lookupInfo, error) {
 				}
 				if g, ok := c.Call.Args[0].(*ssa.Call); ok && g.Call.StaticCallee() != nil && g.Call.StaticCallee().Pkg == p.SSAPkg[p.LicPkg.PkgPath] {
 					li.Wrappers[f] = g.Call.StaticCallee().Name()
+				} else if g, ok := c.Call.Args[0].(*ssa.Call); ok && g.Call.StaticCallee() == nil {
+					// the list comes from a getter handed in as a parameter: the callers that pass a table
+					// getter are the wrappers of that table
+					idx := -1
+					for i, prm := range f.Params {
+						if g.Call.Value == ssa.Value(prm) {
+							idx = i
+						}
+					}
+					n := 0
+					if idx >= 0 {
+						for _, caller := range p.RList {
+							for _, cb := range caller.Blocks {
+								for _, cin := range cb.Instrs {
+									cc, ok := cin.(*ssa.Call)
+									if !ok || cc.Call.StaticCallee() != f || idx >= len(cc.Call.Args) {
+										continue
+									}
+									n++
+									if gf, ok := cc.Call.Args[idx].(*ssa.Function); ok && gf.Pkg == p.SSAPkg[p.LicPkg.PkgPath] {
+										li.Wrappers[caller] = gf.Name()
+									} else {
+										li.Wrappers[caller] = "?"
+									}
+								}
+							}
+						}
+					}
+					if n == 0 {
+						li.Wrappers[f] = "?"
+					}
 				} else {
 					li.Wrappers[f] = "?"
 				}
